@@ -81,6 +81,20 @@ CHECKS["C19"] = dict(
     note="Trusted: TLC; the universe is 6 nodes built through the public constructors (VerifSetLastErr for the error state).",
     technique="TLA+ spec (Sort.tla) + TLC enumeration of the full bounded input space; real code run on every case; TLC validation")
 
+CHECKS["C13"] = dict(
+    engine="codec",
+    category="model_checking",
+    text="Codec.tla transcribes the decoder's case analysis over abstract frames (classes of the metadata length prefix, "
+         "metadata bytes, method-name entity kind, direction, payload length prefix, payload bytes) and maps each frame to "
+         "its allowed outcomes, 'panic' in none; TLC checks totality and enumerates the complete lattice (3840 frames); "
+         "each is instantiated to concrete bytes (1, thorough 8 seeded instances) and decoded by the real Codec under "
+         "recover; TLC validates every outcome against Decode(frame), every round trip of all 17 registered methods in "
+         "both directions (payload, metadata, status code/message/details equal, right type) and arbitrary byte strings "
+         "(error or message). Exhaustive over classes; values inside a class are sampled.",
+    ref="DESIGN.md 5 C13, 3.4",
+    note="Trusted: TLC, the concretisation of classes in harness/cmd/drive/codeccmd.go. Value-level fidelity is exploration-level.",
+    technique="TLA+ transcription of the decoder's case analysis (Codec.tla); TLC enumerates the lattice; each case replayed on the real codec; TLC validation")
+
 PENDING = {
     "C03": "check under construction (Fifo layer, DESIGN.md 11 step 3)",
     "C04": "check under construction (Fifo layer, DESIGN.md 11 step 3)",
@@ -119,6 +133,8 @@ def main():
              "kind_free_text": "TLC on specs/Config.tla (ConfigGen path enumeration, ConfigTrace validation) + drive config"},
             {"name": "sort", "path": "tools/check_sort.py", "serves_properties": ["C19"],
              "kind_free_text": "TLC on specs/Sort.tla (SortGen enumeration, SortTrace validation) + drive sort"},
+            {"name": "codec", "path": "tools/check_codec.py", "serves_properties": ["C13"],
+             "kind_free_text": "TLC on specs/Codec.tla (CodecGen lattice, CodecTrace validation) + drive codec"},
             {"name": "calls", "path": "tools/check_calls.py",
              "serves_properties": ["C01", "C02", "C06", "C11"],
              "kind_free_text": "TLC on specs/Calls.tla (CallsMC exhaustive, CallsGen behaviour generator, CallsTrace trace "
